@@ -39,6 +39,31 @@ CHECKS["C18"] = dict(
    text="Exploration: all directed graphs (self-loops included) on up to 3 packages (quick) / 4 packages (thorough, 65 536 graphs) and random graphs on 5-14 packages with chains around the nesting limit, shortcuts, diamonds, cycles away from the root, namespace clashes and relative/absolute/redundant path spellings. A reference loader decides reachability, cycles, clashes and chain lengths; yardl must reject exactly when the reference does (cases with a chain of exactly the limit, or a long chain next to a shorter path, are only required to be order-independent), must list exactly the reachable namespaces once each with their own definitions in model.json, and must give the same verdict and definitions for reversed and rotated import lists.",
    note="trusted: the reference loader (60 lines) and the reading of the limit as packaging.MaxImportRecursionDepth = 10 edges",
    ref="DESIGN.md section 3 (C18)")
+RT_NOTE = "trusted: the reference codecs (harness/ref, written from docs/reference/*.md, no yardl code), the std::vector-based array header plugged in through the documented cpp.overrideArrayHeader option and the minimal date.h stand-in (xtensor/date are not installed); generator switches tied to open known findings exclude the affected shapes and count them"
+CHECKS["C01"] = dict(
+   technique="property-based differential testing of generated C++ and Python binary readers/writers against an independent reference implementation of the published binary format",
+   text="Exploration: for each generated package (all type constructors, generics, imports) and several generated value sequences per protocol (edge integers around varint length changes, NaN/inf/-0.0, multi-byte UTF-8, empty containers, occasionally >64 KiB strings and long vectors, random stream block partitions) a reference-encoded stream is read by the generated binary reader and rewritten by the generated binary writer, in Python and in compiled C++; the output must decode strictly (no trailing bytes, valid block structure, same schema header) under the reference decoder to exactly the values encoded. Both ends being the reference codec, a symmetric reader/writer error cannot cancel out.",
+   note=RT_NOTE, ref="DESIGN.md section 3 (C01)")
+CHECKS["C02"] = dict(
+   technique="property-based testing of generated NDJSON writers/readers against a reference implementation of the documented JSON mapping (type-directed matcher and emitter)",
+   text="Exploration: generated packages x value sequences with finite floats; three legs per language (Python, C++): W - generated binary reader -> generated NDJSON writer, every line matched against the documented mapping of the value (union tagging rule, omitted null fields, enum/flag symbols or integers, map forms, array forms, date/time by denoted instant); R - reference NDJSON -> generated reader -> binary -> reference decoder; RT - generated writer -> generated reader. Values must survive exactly.",
+   note=RT_NOTE, ref="DESIGN.md section 3 (C02)")
+CHECKS["C03"] = dict(
+   technique="property-based testing over generated chains of language/format hops with a reference oracle after every hop and canonical-encoding byte equality",
+   text="Exploration: a reference-encoded stream (binary or NDJSON) is pushed through a generated chain of 2-5 hops alternating between generated C++ and Python code, each hop writing binary or NDJSON; after every hop the stream must be accepted, carry the original values, and every binary output must be byte-identical to the reference encoding of those values under its own block partition and map order (which makes the C++ and Python binary outputs byte-identical up to those two freedoms).",
+   note=RT_NOTE + "; MATLAB cannot be an endpoint (no interpreter)", ref="DESIGN.md section 3 (C03)")
+CHECKS["C15"] = dict(
+   technique="property-based fault injection: streams of a one-edit neighbour schema and header corruptions fed to generated readers, oracle = error before any value reaches the sink",
+   text="Exploration: package pairs (A, B = A + one schema-changing edit, protocol names unchanged) - A's reference-encoded binary and NDJSON streams are fed to B's generated readers (Python, C++); B's own streams are fed with corrupted headers (single-bit flips spread over magic, version, schema-length varint and schema text; truncation inside the header; NDJSON header with wrong version, misspelt key, missing schema, non-JSON, edited schema). The reader must fail and the generated NDJSON writer used as sink must have received no value.",
+   note=RT_NOTE, ref="DESIGN.md section 3 (C15)")
+CHECKS["C16"] = dict(
+   technique="exhaustive/sampled truncation fuzzing of valid streams with a prefix oracle, C++ under AddressSanitizer and UBSan",
+   text="Exploration: valid reference-encoded streams are cut at every byte position (streams up to 400 bytes past the header) or at positions around every value start, every 64 KiB multiple and 120 generated positions; each prefix is read by the generated reader (Python; C++ with ASan+UBSan) copying into an NDJSON sink. Binary: every strict prefix must end in an error; NDJSON: an error unless the prefix is itself a complete stream under the documented grammar; values delivered before the error must equal, one by one, the values written at those positions; no crash, sanitizer report or hang.",
+   note=RT_NOTE, ref="DESIGN.md section 3 (C16)")
+CHECKS["C17"] = dict(
+   technique="metamorphic property-based testing: the same item sequence under different block partitions, read/write batch sizes and write groupings must read back identically",
+   text="Exploration: generated packages with stream steps x item sequences whose neighbours differ in shape x 4-6 variants of (input block partition, C++ CopyTo buffer sizes selecting single-item or batch read/write overloads, Python write grouping: list / lazy generator / one by one / chunks of k, binary or NDJSON on either side); every variant must deliver exactly the items written, in order (checked against the reference decoder / mapping).",
+   note=RT_NOTE, ref="DESIGN.md section 3 (C17)")
 NOT_YET = {}
 
 props = [json.loads(l) for l in open("properties.jsonl")]
